@@ -53,6 +53,15 @@ Coverage audit (every public command method, Reply attributes, failed calls):
    and only reading past the last reply is judged (after-timeout/would-block-...).
  * cuts: the designed script under every single cut of the whole reply stream and every pair of cuts within
    +-3 bytes of each line end (between whole and bytewise delivery).
+ * conc: 2..3 Client / LmtpClient objects, each in its own greenlet over its own SwitchSocket (a read that finds
+   nothing ready switches to the scheduler greenlet, as a gevent socket switches to the hub), different command
+   and reply scripts; the feeder gives one conversation at a time its next piece (per flush / per reply / per
+   reply line / seeded) and lets it run to its next empty read. Every interleaving of the turns of two short
+   conversations (4 pairs of classes x PIPELINING), seeded interleavings of random scripts and of per-line
+   delivery. Oracle: each conversation's returned replies (code, message, command, when populated), what every
+   call saw on return, extension set, LMTP recipient pairing, bytes written, owed queue and leftover equal those
+   of the same conversation run alone; no Reply object with a script entry is returned to two clients
+   (concurrent-clients-interfere/<what>/<classes>, reply-object-shared-between-clients/<classes>).
 """
 import re
 import random
@@ -60,8 +69,10 @@ import itertools
 
 import base64
 import errno
+import zlib
 
 from gevent import Timeout as GTimeout
+from greenlet import greenlet, getcurrent
 
 from vf.sock import ScriptSocket, WouldBlock
 from slimta.smtp.client import Client, LmtpClient
@@ -98,7 +109,8 @@ LEVEL_TEXT = ('Real Client and LmtpClient driven through generated command seque
               'family carry one fault (a malformed reply to one command x 4 forms x every command of the designed '
               'script; end of stream at offsets around every reply boundary; a caller Timeout in one read) and '
               'continue using the client; the designed script also runs under every single cut and boundary pair of '
-              'cuts. Pairing (code, full text, command attribute, object identity), exact consumption and lock-step '
+              'cuts; 2..3 clients run concurrently in greenlets (every interleaving of two short conversations, '
+              'seeded beyond) must each behave as alone. Pairing (code, full text, command attribute, object identity), exact consumption and lock-step '
               'judged on every fault-free run; after a fault as described in the module docstring. '
               'Held = held on the runs reported.')
 LEVEL_NOTE = ('Trusted: ScriptSocket, ReplyServer (command/content splitter and release rule, 100 lines), the '
@@ -122,7 +134,8 @@ RULE = ('case = one command sequence with its reply script (code and 1..3 lines 
         'LMTP with mixed recipient acceptance. faults: badreply = designed script x every command but the '
         'greeting x {garbage, code, utf8, midgarbage} x PIPELINING x client class, eof/timeout = designed script '
         'x offsets {start, +1, +4, middle, end-2, end-1} of every reply; cuts = designed script x (every single '
-        'cut + pairs around line ends), 50 deliveries per case')
+        'cut + pairs around line ends), 50 deliveries per case; conc = one reference evaluation (each '
+        'conversation alone) + one evaluation per interleaving of the turns of 2..3 concurrent conversations')
 ASSUMPTIONS = ['ScriptSocket hands out exactly the scripted segments',
                'message content is sent only after a 3xx answer to DATA (the caller obeys the protocol); the '
                'script server treats the bytes after such a DATA up to CRLF.CRLF as content',
@@ -144,7 +157,8 @@ REQUIRED_HITS = ['reply-paired', 'tail-compared', 'pipelined-batch', 'lockstep-c
                  'unencodable-mail-parameter-refused', 'mail-parameters-compared',
                  'reply-text-compared', 'command-attribute-compared', 'starttls-paired', 'starttls-decision-compared',
                  'auth-exchange-paired', 'unencodable-hello-name-refused', 'bad-reply-continued',
-                 'connection-lost-continued', 'timeout-continued', 'cut-delivery']
+                 'connection-lost-continued', 'timeout-continued', 'cut-delivery',
+                 'concurrent-interleavings-enumerated', 'concurrent-conversations-compared']
 SHARDS = {'quick': 12, 'thorough': 16}
 BUDGET = {'quick': 60, 'thorough': 900}
 EXHAUSTIVE = {'quick': False, 'thorough': False}
@@ -506,16 +520,63 @@ def gen_random_fault(rnd):
     return case
 
 
+def short_script(lmtp, adv, variant):
+    """A short conversation for the exhaustive interleavings of two concurrent clients."""
+    v = variant
+    ops = [op('banner', '220', 1 + v % 2),
+           op('lhlo' if lmtp else 'ehlo', '250', 1, arg='c%d.test' % v, adv=adv, utf8=bool(v % 2),
+              ext=('AUTH',) if v % 3 == 0 else ('SIZE',)),
+           op('mail', '250' if v != 2 else '251', 1 + v % 3, arg='s%d@x.test' % v),
+           op('rcpt', '250', 1, arg='a%d@x.test' % v),
+           op('rcpt', '550' if v % 2 else '250', 2, arg='b%d@x.test' % v)]
+    if v == 3:      # without content: refused DATA, reset
+        ops += [op('data', '554', 1), op('rset', '250', 1)]
+    else:
+        ops += [op('data', '354', 1),
+                op('send_empty_data' if v == 1 else 'send_data', '250', 1, arg=v % 2, codes=['250', '452'])]
+    ops.append(op('quit', '221', 1))
+    return {'kind': 'short', 'lmtp': lmtp, 'ops': ops, 'rs': 11 + v}
+
+
+CONC_PAIRS = [((False, True, 0), (True, True, 1)), ((False, True, 2), (False, True, 1)),
+              ((True, True, 0), (True, True, 2)), ((False, False, 3), (True, True, 0))]
+CONC_CHUNKS = 12
+
+
+def gen_concurrent_designed(seed):
+    """Two short conversations under EVERY interleaving of their turns (a turn = the conversation runs until its
+    next read finds nothing ready), the released replies handed over per flush ('whole')."""
+    for a, b in CONC_PAIRS:
+        for k in range(CONC_CHUNKS):
+            yield {'kind': 'conc', 'convs': [short_script(*a), short_script(*b)], 'cmodes': ['whole', 'whole'],
+                   'all': [k, CONC_CHUNKS], 'rs': seed}
+        # the same pair with every read ending after one reply line (a client waits in the middle of a multi-line
+        # reply while the other one runs): seeded interleavings
+        for k in range(4):
+            yield {'kind': 'conc', 'convs': [short_script(*a), short_script(*b)], 'cmodes': ['line', 'line'],
+                   'nsched': 40, 'rs': seed * 100 + k}
+
+
+def gen_concurrent_random(rnd):
+    n = rnd.choice((2, 2, 3))
+    return {'kind': 'conc', 'convs': [gen_random(rnd) for _ in range(n)],
+            'cmodes': [rnd.choice(('whole', 'reply', 'line', 'line', 'rand')) for _ in range(n)],
+            'nsched': 4, 'rs': rnd.randrange(1 << 30)}
+
+
 def gen_cases(tier, seed, shard, nshards):
     n = 0
-    for case in itertools.chain(gen_faults_designed(seed), gen_cuts(seed), gen_utf8(seed), gen_mailparams(seed),
-                                gen_exhaustive(seed)):
+    for case in itertools.chain(gen_faults_designed(seed), gen_cuts(seed), gen_concurrent_designed(seed),
+                                gen_utf8(seed), gen_mailparams(seed), gen_exhaustive(seed)):
         if n % nshards == shard:
             yield case
         n += 1
     rnd = random.Random('c10-%d-%d' % (seed, shard))
     for i in range(NRANDOM[tier] // nshards):
-        yield gen_random_fault(rnd) if i % 8 == 7 else gen_random(rnd)
+        if i % 16 == 3:
+            yield gen_concurrent_random(rnd)
+        else:
+            yield gen_random_fault(rnd) if i % 8 == 7 else gen_random(rnd)
 
 
 # ------------------------------------------------------------------ the plan: script + expectations
@@ -801,6 +862,8 @@ class ReplyServer(object):
                 n = len(flat)
             elif self.mode == 'byte':
                 n = 1
+            elif self.mode == 'line':                       # one reply line per read
+                n = flat.find(b'\n') + 1 or len(flat)
             elif isinstance(self.mode, (list, tuple)):      # cuts at global offsets of the reply stream
                 nxt = [c for c in self.mode if c > self.fed]
                 n = (nxt[0] - self.fed) if nxt else len(flat)
@@ -1306,6 +1369,176 @@ def run_once(case, plan, mode, rs, R):
     return out, aborted
 
 
+# ------------------------------------------------------------------ concurrent clients
+class SwitchSocket(ScriptSocket):
+    """A read that finds nothing ready really switches to the scheduler greenlet (as a gevent socket switches to
+    the hub); when the scheduler gives this conversation its next turn the feeder has handed over one piece."""
+
+    def _next(self, n):
+        if not self.segments:
+            self.scheduler.switch('blocked')
+            self.on_recv(self)               # this turn's piece (nothing if no reply is owed)
+            if not self.segments:
+                raise WouldBlock()
+        self.recv_calls += 1
+        seg = self.segments[0]
+        if len(seg) <= n:
+            self.segments.pop(0)
+            out = seg
+        else:
+            out = seg[:n]
+            self.segments[0] = seg[n:]
+        self.consumed += len(out)
+        return out
+
+
+class Conversation(object):
+    """One client, its scripted socket and server, driven through its ops inside its own greenlet."""
+
+    def __init__(self, case, plan, mode, rs, scheduler):
+        self.case, self.plan = case, plan
+        self.srv = ReplyServer(plan, mode, random.Random(rs))
+        self.ss = SwitchSocket(on_recv=self.srv.on_recv, on_send=self.srv.on_send)
+        self.ss.scheduler = scheduler
+        self.client = (LmtpClient if case['lmtp'] else Client)(self.ss, ('peer%d.test' % (rs % 7), 25))
+        self.ctx = FakeTlsContext()
+        self.objs = []           # (op index, slot, address, Reply) of every reply object a call returned
+        self.trace = []          # per op: what the caller saw when the call returned
+        self.turns = 0
+        self.done = False
+        self.g = greenlet(self.run, parent=scheduler)
+
+    def run(self):
+        for i, o in enumerate(self.case['ops']):
+            try:
+                got = call(self.client, o, self.ctx)
+            except WouldBlock:
+                self.trace.append((i, o['op'], 'would-block'))
+                break                        # the real program hangs here
+            except (UnicodeEncodeError, NotImplementedError, BadReply, ConnectionLost) as ex:
+                self.trace.append((i, o['op'], type(ex).__name__))
+                continue
+            except Exception as ex:          # nothing a caller expects: this conversation ends here
+                self.trace.append((i, o['op'], 'crash:' + type(ex).__name__))
+                break
+            for j, (addr, r) in enumerate(got):
+                self.objs.append((i, j, addr, r))
+            self.trace.append((i, o['op'], tuple((addr, r.code, r.message, r.command) for addr, r in got),
+                               sum(1 for _, _, _, r in self.objs if r.code is not None)))
+        self.done = True
+        return 'done'
+
+    def turn(self):
+        self.turns += 1
+        self.g.switch()
+
+    def snapshot(self):
+        c = self.client
+        self.srv.release()
+        return {'trace': self.trace,
+                'replies': [(i, j, addr, r.code, r.message, r.command) for i, j, addr, r in self.objs],
+                'extensions': sorted((k, v) for k, v in c.extensions.extensions.items()),
+                'lmtp-recipients': [(i, addr, r.code, r.message) for i, j, addr, r in self.objs if addr is not None],
+                'leftover': c.io.recv_buffer + self.ss.unread() + b''.join(self.srv.pending),
+                'owed': (len(c.reply_queue), [a for a, _ in getattr(c, 'rcpttos', [])]),
+                'wire': list(self.ss.sent), 'turns': self.turns, 'tls': self.ctx.wrapped}
+
+
+def run_conversations(convs, plans, modes, seeds, schedule):
+    """schedule None: one after the other, each alone (the reference). Else a sequence of conversation indexes,
+    one per turn. Returns (snapshots, problem)."""
+    sched = getcurrent()
+    cs = [Conversation(c, p, m, rs, sched) for c, p, m, rs in zip(convs, plans, modes, seeds)]
+    problem = None
+    if schedule is None:
+        for c in cs:
+            while not c.done and c.turns < 100000:
+                c.turn()
+    else:
+        for j in schedule:
+            if cs[j].done:
+                problem = 'conversation %d finished in fewer turns than alone' % j
+                break
+            cs[j].turn()
+        if problem is None and not all(c.done for c in cs):
+            problem = 'conversations %r need more turns than alone' % [j for j, c in enumerate(cs) if not c.done]
+    for c in cs:                 # a conversation left blocked is dropped
+        if not c.done:
+            c.g.throw(greenlet.GreenletExit) if c.g else None
+    shared = None
+    seen = {}
+    for j, c in enumerate(cs):
+        for i, slot, addr, r in c.objs:
+            if id(r) in seen and seen[id(r)][0] != j and c.plan['per_op'][i]:
+                shared = 'op %d of conversation %d and op %d of conversation %d returned the same Reply object' \
+                    % (seen[id(r)][1], seen[id(r)][0], i, j)
+            seen[id(r)] = (j, i)
+    return [c.snapshot() for c in cs], problem, shared
+
+
+def run_concurrent(case, R):
+    convs = case['convs']
+    plans = [build_plan(c) for c in convs]
+    modes = case['cmodes']
+    rnd = random.Random(case['rs'])
+    seeds = [rnd.randrange(1 << 30) for _ in convs]
+    names = '+'.join(sorted(set('lmtp' if c['lmtp'] else 'smtp' for c in convs), reverse=True))
+    R.eval()
+    ref, problem, _ = run_conversations(convs, plans, modes, seeds, None)
+    if problem or any(r['turns'] >= 100000 for r in ref):
+        R.inconclusive('reference conversation does not end')
+        return
+    turns = [r['turns'] for r in ref]
+    if 'all' in case:
+        k, nk = case['all']
+        total = turns[0] + turns[1]
+        scheds = []
+        for n, pos in enumerate(itertools.combinations(range(total), turns[0])):
+            if n % nk == k:
+                ps = set(pos)
+                scheds.append([0 if t in ps else 1 for t in range(total)])
+        R.hit('concurrent-interleavings-enumerated', len(scheds))
+    else:
+        base = [j for j, t in enumerate(turns) for _ in range(t)]
+        scheds = []
+        for _ in range(case['nsched']):
+            sc = list(base)
+            rnd.shuffle(sc)
+            scheds.append(sc)
+    shape = tuple(script_shape(c, p) for c, p in zip(convs, plans))
+    if any(is_nontrivial(c, p) for c, p in zip(convs, plans)):
+        R.nontrivial(('conc', shape, tuple(modes)))
+    for sc in scheds:
+        R.eval()
+        got, problem, shared = run_conversations(convs, plans, modes, seeds, sc)
+        R.hit('concurrent-conversations-compared', len(convs))
+        R.observe('interleaving', (khash_shape(shape), tuple(modes), tuple(sc)))
+        switches = sum(1 for a, b in zip(sc, sc[1:]) if a != b)
+        R.count('interleavings-with-%s-switches' % ('0' if switches == 0 else '1-3' if switches < 4 else '4+'))
+        witness = {'schedule': sc, 'modes': modes, 'turns_alone': turns}
+        if shared:
+            R.violation('reply-object-shared-between-clients/%s' % names, shared, witness)
+        if problem:
+            R.violation('concurrent-clients-interfere/turns/%s' % names, problem, witness)
+        for j, (a, b) in enumerate(zip(ref, got)):
+            for key in ('replies', 'trace', 'extensions', 'lmtp-recipients', 'leftover', 'owed', 'wire', 'tls'):
+                if a[key] != b[key]:
+                    R.violation('concurrent-clients-interfere/%s/%s' % (key, names),
+                                'conversation %d (%s): %s differs from the same conversation alone: %r, alone %r'
+                                % (j, 'lmtp' if convs[j]['lmtp'] else 'smtp', key, short_of(b[key]), short_of(a[key])),
+                                dict(witness, conversation=j))
+                    break
+
+
+def khash_shape(shape):
+    return zlib.crc32(repr(shape).encode('utf-8'))
+
+
+def short_of(x):
+    s = repr(x)
+    return s if len(s) < 400 else s[:400] + '...'
+
+
 def before_units(plan, i):
     """Command units the script expects on the wire before op i puts its own there."""
     return max([u for u in plan['op_unit'][:i] if u is not None] or [0])
@@ -1335,6 +1568,8 @@ def is_nontrivial(case, plan):
 
 
 def run_case(case, R):
+    if case['kind'] == 'conc':
+        return run_concurrent(case, R)
     plan = build_plan(case)
     shape = script_shape(case, plan)
     if is_nontrivial(case, plan):
